@@ -192,6 +192,7 @@ def build_case(spec, max_msgs=12, max_size=2000, adversary=True):
     }
     if spec.get("dilate"):
         cfg["dilation"] = True
+        cfg["api_a"] = cfg["api_b"] = "deferred"     # only the Deferred-mode wormhole has dilate()
     if kind == "perm":
         n = len(spec["perm"]) - 1
         cfg["plan_a"] = make_plan(rng, "A", n, gates=("any",))
